@@ -197,11 +197,14 @@ func vfLgTx(mode int, obC01, obC03, rp string) {
 		gasPrice = new(big.Int).Set(types.MaxAER)
 	}
 
-	// recipient shape: 0 B plain, 1 B new, 2 B contract, 3 self, 4 aergo.vault, 5 none (deploy)
+	// recipient shape: 0 B plain, 1 B new, 2 B contract, 3 self, 4 aergo.vault, 5 none (deploy: the created contract),
+	// 6 none (multicall: the sender itself)
 	var rcv, otherKind int
 	switch typ {
-	case types.TxType_DEPLOY, types.TxType_MULTICALL:
+	case types.TxType_DEPLOY:
 		rcv = 5
+	case types.TxType_MULTICALL:
+		rcv = 6
 	default:
 		rcv = vfLgPick("rcv", rcvMask, 5)
 	}
@@ -211,8 +214,14 @@ func vfLgTx(mode int, obC01, obC03, rp string) {
 	w := vfLgWorld(otherKind, gasPrice)
 
 	// the transaction
+	// DEPLOY: the id of the created contract is a hash of (account, tx nonce); a concrete tx nonce keeps that id
+	// concrete (the sender's state nonce stays symbolic, so all nonce outcomes low / exact / high remain covered)
+	txNonce := uint64(1000)
+	if typ != types.TxType_DEPLOY {
+		txNonce = vf.U64("tx.nonce")
+	}
 	body := &types.TxBody{
-		Nonce:    vf.U64("tx.nonce"),
+		Nonce:    txNonce,
 		Account:  w.ids[vfLgSender],
 		Amount:   vfLgBig("tx.amount", vfLgMaxField).Bytes(),
 		GasLimit: vf.U64("tx.gasLimit"),
@@ -231,6 +240,9 @@ func vfLgTx(mode int, obC01, obC03, rp string) {
 		rcvIdx = vfLgVault
 	case 5:
 		rcvIdx = vfLgCreated
+		w.ids[vfLgCreated] = contract.CreateContractID(w.ids[vfLgSender], txNonce)
+	case 6:
+		rcvIdx = vfLgSender
 	}
 	// payload: content is irrelevant on these paths (the VM is an environment stub); the LENGTH drives the fee
 	// functions. Selector 5 = opaque slice of symbolic length 0..TxMaxSize+1024 (every length decided at once);
@@ -252,16 +264,9 @@ func vfLgTx(mode int, obC01, obC03, rp string) {
 		// its legacy rule
 		vf.Assume(!types.IsQuirkTx(tx.Hash))
 	}
-	if rcv == 5 {
-		w.ids[vfLgCreated] = nil // not observable before; set after for the post-observation
-	}
-
 	pre := w.observe()
 	exec := NewTxExecutor(nil, nil, nil, bi, 0)
 	err := exec(w.bs, types.NewTransaction(tx))
-	if rcv == 5 {
-		w.ids[vfLgCreated] = vfLgCreatedID(body)
-	}
 	post := w.observe()
 
 	amount := body.GetAmountBigInt()
@@ -328,7 +333,8 @@ func vfLgTx(mode int, obC01, obC03, rp string) {
 	vf.Reach(rp + ".success")
 	if mode == 1 {
 		vf.Assert(dReward.Cmp(feeUsed) == 0, obC01)
-		vf.Assert(new(big.Int).Add(post.sum(), dReward).Cmp(pre.sum()) == 0, obC01)
+		vf.AssertKnown(new(big.Int).Add(post.sum(), dReward).Cmp(pre.sum()) == 0, obC01, "F13-feedelegation-self-fee-not-debited",
+			typ == types.TxType_FEEDELEGATION && rcvIdx == vfLgSender)
 		// the payer lost exactly fee (+ amount if it is the sender and the recipient is somebody else)
 		lost := new(big.Int).Set(feeUsed)
 		if payer == vfLgSender && rcvIdx != vfLgSender {
@@ -337,7 +343,11 @@ func vfLgTx(mode int, obC01, obC03, rp string) {
 		if payer != vfLgSender {
 			lost.Sub(lost, amount) // fee delegation: the contract pays the fee and receives the amount
 		}
-		vf.Assert(new(big.Int).Add(post.bal[payer], lost).Cmp(pre.bal[payer]) == 0, obC01)
+		// F13: FEEDELEGATION whose recipient is the sender's own account: executeTx debits the fee on the `receiver`
+		// AccountState object but only puts the `sender` object (same account id), so the fee reaches BpReward
+		// without being debited
+		f13 := typ == types.TxType_FEEDELEGATION && rcvIdx == vfLgSender
+		vf.AssertKnown(new(big.Int).Add(post.bal[payer], lost).Cmp(pre.bal[payer]) == 0, obC01, "F13-feedelegation-self-fee-not-debited", f13)
 		if rcvIdx != vfLgSender && payer == vfLgSender {
 			vf.Assert(new(big.Int).Add(pre.bal[rcvIdx], amount).Cmp(post.bal[rcvIdx]) == 0, obC01)
 		}
@@ -351,10 +361,6 @@ func vfLgTx(mode int, obC01, obC03, rp string) {
 	}
 	vf.Observe("outcome", rc.Status)
 	vf.Observe("fee", feeUsed)
-}
-
-func vfLgCreatedID(body *types.TxBody) []byte {
-	return contract.CreateContractID(body.Account, body.Nonce)
 }
 
 func VF_C01_a() { vfLgTx(1, "C01.a", "C01.a", "C01.a") }
